@@ -308,6 +308,14 @@ redo:
 				tok, ch = l.scanNumber(ch, true)
 			}
 		default:
+			if ch >= utf8.RuneSelf {
+				// Not an identifier character, and no operator is outside
+				// ASCII. Returned as is, the rune could coincide with the
+				// number of a named token (they start at 57346 = U+E002).
+				l.errorf("unexpected character %q", ch)
+				tok, ch = stopTok, l.next()
+				break
+			}
 			tok, ch = l.scanOperator(ch)
 		}
 	}
